@@ -129,3 +129,36 @@ func init() {
 		return res
 	}
 }
+
+// sort.Search(n, f): smallest index in [0,n] at which f holds, assuming f is monotone; without
+// that assumption the result r still satisfies (r == n or f(r)) and (r == 0 or !f(r-1)).
+// f is evaluated by inlining the function literal; it is called only with 0 <= j < n.
+func init() {
+	externs["sort.Search"] = func(c *FnCtx, st *State, call *ast.CallExpr, recv *Val, args []Val) Val {
+		n := args[0].S
+		r := c.fresh("search", "Int")
+		res := Val{K: KInt, S: r, T: types.Typ[types.Int]}
+		c.assume(st, sAnd(sx("<=", "0", r), sx("<=", r, n)))
+		fv := args[1]
+		if fv.Lit == nil {
+			c.unmodelled["sort.Search with a non-literal predicate"] = true
+			return res
+		}
+		sig := c.typeOf(fv.Lit.lit).(*types.Signature)
+		evalAt := func(j string, guard string) string {
+			saved := st.pc
+			st.pc = c.define("pc", "Bool", sAnd(saved, guard))
+			v := c.inlineBody(st, "sort.Search$pred", sig, fv.Lit.lit.Body, nil, nil, []Val{{K: KInt, S: j, T: types.Typ[types.Int]}}, fv.Lit.info, c.pkg, true)
+			st.pc = saved
+			return v.S
+		}
+		// safety of the predicate for an arbitrary index in range
+		j0 := c.fresh("j", "Int")
+		evalAt(j0, sAnd(sx("<=", "0", j0), sx("<", j0, n)))
+		at := evalAt(r, sx("<", r, n))
+		before := evalAt(sx("-", r, "1"), sx(">", r, "0"))
+		c.assume(st, sOr(sx("=", r, n), at))
+		c.assume(st, sOr(sx("=", r, "0"), sNot(before)))
+		return res
+	}
+}
